@@ -7,6 +7,7 @@ using namespace rg;
 // kind 0: block read (addr, n); kind 1: iteration (addr, n, script: stop kind s at k-th call; s 0 never, 1 positive, 2 negative)
 struct Case { TableD t; std::vector<std::vector<uint16_t>> content; int kind; uint32_t addr, n; int s; unsigned k; };
 static Case g_cur;
+static std::string g_prefix;   // history in front of the case in flight (re-layout phase)
 static std::string ser_case(const Case &c) {
     std::string s = rm::ser(c.t);
     for (size_t i = 0; i < c.content.size(); i++) { s += vp::fmt("content %zu", i); for (uint16_t w : c.content[i]) s += vp::fmt(" %u", w); s += "\n"; }
@@ -85,16 +86,66 @@ static std::string run_case(const Case &c, std::string &msg) {
     return "";
 }
 
+// Histories over one table object: a layout is initialised and queried once, then the same object (run_case builds its table at the same
+// address every time) is given a different layout, initialised again, and queried once at an address the first layout also mapped.
+// Nothing the first layout left behind (in the object or in the library) may influence the second answer.
+static TableD relayout(vp::Rng &rng, const TableD &t, int how) {
+    TableD u = t;
+    auto drop_regs_of = [&](uint32_t b, uint32_t e) { std::vector<rm::RegD> keep; for (auto &r : u.regs) if (!(r.addr >= b && r.addr < e)) keep.push_back(r); u.regs = keep; };
+    switch (how) {
+    case 0:   // the first area disappears: every later area gets a smaller handle
+        if (u.areas.size() >= 2) { drop_regs_of(u.areas[0].base, u.areas[0].end()); u.areas.erase(u.areas.begin()); }
+        break;
+    case 1: { // a new area in front: every area gets a larger handle
+        if (u.areas.front().base >= 3) { rm::AreaD n = u.areas.front(); n.size = 1 + (uint32_t)rng.below(2); n.base = u.areas.front().base - n.size - (uint32_t)rng.below(2); if (n.base + n.size <= u.areas.front().base) u.areas.insert(u.areas.begin(), n); }
+        break; }
+    case 2: { // an area is split into two adjacent ones (registers of it dropped)
+        size_t k = rng.below(u.areas.size());
+        if (u.areas[k].size >= 2) { drop_regs_of(u.areas[k].base, u.areas[k].end()); rm::AreaD lo = u.areas[k], hi = u.areas[k]; lo.size = 1 + (uint32_t)rng.below(u.areas[k].size - 1); hi.base = lo.base + lo.size; hi.size = u.areas[k].size - lo.size; u.areas[k] = lo; u.areas.insert(u.areas.begin() + (long)k + 1, hi); }
+        break; }
+    default:  // the last area disappears (a handle that used to be valid is now one past the end)
+        if (u.areas.size() >= 2) { drop_regs_of(u.areas.back().base, u.areas.back().end()); u.areas.pop_back(); }
+    }
+    if (rng.below(2)) u.regs.clear();
+    return u;
+}
+static void relayout_phase(vp::Rng &rng, size_t npairs) {
+    FamilyOpts fo; fo.max_size = 8; fo.max_areas = 5;
+    for (size_t pi = 0; pi < npairs && !vp::too_many_failures(); pi++) {
+        Case c1, c2;
+        c1.t = gen_table(rng, fo);
+        if (rng.below(2)) c1.t.regs.clear();
+        int how = (int)rng.below(4);
+        c2.t = relayout(rng, c1.t, how);
+        for (Case *c : {&c1, &c2}) { rm::Space m; m.init(c->t); for (auto &ar : m.mem) for (auto &w : ar) w = (uint16_t)(rng.next() | 1); c->content = m.mem; }
+        // first query: one word somewhere in an area of the first layout
+        size_t k1 = rng.below(c1.t.areas.size());
+        const rm::AreaD &a1 = c1.t.areas[k1];
+        c1.kind = 0; c1.addr = a1.base + (uint32_t)rng.below(a1.size); c1.n = 1; c1.s = 0; c1.k = 0;
+        // second query: inside the area the first query hit, as far as the second layout maps it
+        rm::Space m2; m2.init(c2.t);
+        uint32_t ad = a1.base + (uint32_t)rng.below(a1.size);
+        c2.kind = rng.below(4) ? 0 : 1; c2.addr = ad; c2.n = 1 + (uint32_t)rng.below(3); c2.s = 0; c2.k = 0;
+        std::string msg, key = run_case(c1, msg);
+        if (key.empty()) { g_prefix = ser_case(c1) + "----then----\n"; key = run_case(c2, msg); g_prefix.clear(); if (!key.empty()) key = "after-relayout:" + key; }
+        if (!key.empty()) vp::fail(key, msg, ser_case(c1) + "----then----\n" + ser_case(c2));
+        int h1 = (int)k1, h2 = m2.area_of(ad);
+        if (h2 >= 0 && h2 != h1) { vp::nontrivial(vp::mix(vp::mix(vp::fnv(rm::ser(c1.t)), vp::fnv(rm::ser(c2.t))), ((uint64_t)c1.addr << 32) | ad)); vp::cls("relayout:same-address-other-area-handle"); }
+        else if (h2 < 0) vp::cls("relayout:address-no-longer-mapped");
+    }
+}
+
 static void run() {
     auto &a = vp::args();
-    vp::CaseScope scope([] { return ser_case(g_cur); });
+    vp::CaseScope scope([] { return g_prefix + ser_case(g_cur); });
     size_t ntables = (a.thorough() ? 40000 : 3000) / a.nshards;
     vp::stats().rule = vp::fmt("enum: %zu generated valid tables per shard with randomised content; every (address, length) of a window from 2 below the first area to 2 behind the last as block read "
-                               "(exact-size caller buffer with canary words in front) and as iteration range x callback scripts (never stop; positive / negative result at the k-th call for every k); block reads of 2^31..2^32-1 words from every area (must be refused at the first unmapped address without touching the buffer)", ntables);
+                               "(exact-size caller buffer with canary words in front) and as iteration range x callback scripts (never stop; positive / negative result at the k-th call for every k); block reads of 2^31..2^32-1 words from every area (must be refused at the first unmapped address without touching the buffer); histories over one table object: layout A initialised and read once, then the object re-laid-out (area dropped / inserted / split), initialised again and queried at an address layout A mapped under another area handle", ntables);
     vp::Rng rng(a.seed * 9973 + a.shard);
     FamilyOpts fo; fo.max_size = 8;
     FamilyOpts big; big.max_areas = 6; big.max_size = 20; big.max_regs = 12;   // thorough tier: every 8th table is a larger one
     FamilyOpts wide; wide.huge = 2; wide.many = 2; wide.max_size = 8;             // every 60th table: an area beyond 2^16 words, or 32..70 registers
+    relayout_phase(rng, (a.thorough() ? 400000 : 40000) / a.nshards);
     for (size_t ti = 0; ti < ntables && !vp::too_many_failures(); ti++) {
         Case c; c.t = gen_table(rng, (ti % 60 == 59) ? wide : (a.thorough() && ti % 8 == 7) ? big : fo);
         rm::Space m; m.init(c.t);
@@ -144,8 +195,27 @@ static void run() {
         }
     }
 }
+static bool parse_case(const std::string &text, Case &c);
 static bool replay(const std::string &text) {
-    Case c; std::vector<std::string> rest;
+    size_t sep = text.find("----then----\n");
+    if (sep != std::string::npos) {
+        Case c1, c2;
+        if (!parse_case(text.substr(0, sep), c1) || !parse_case(text.substr(sep + 13), c2)) return false;
+        vp::CaseScope scope([] { return g_prefix + ser_case(g_cur); });
+        std::string msg, key = run_case(c1, msg);
+        if (key.empty()) { g_prefix = ser_case(c1) + "----then----\n"; key = run_case(c2, msg); if (!key.empty()) key = "after-relayout:" + key; }
+        if (!key.empty()) printf("[replay] key=%s %s\n", key.c_str(), msg.c_str());
+        return key.empty();
+    }
+    Case c;
+    if (!parse_case(text, c)) return false;
+    vp::CaseScope scope([] { return g_prefix + ser_case(g_cur); });
+    std::string msg, key = run_case(c, msg);
+    if (!key.empty()) printf("[replay] key=%s %s\n", key.c_str(), msg.c_str());
+    return key.empty();
+}
+static bool parse_case(const std::string &text, Case &c) {
+    std::vector<std::string> rest;
     if (!rm::parse(text, c.t, rest)) return false;
     c.content.resize(c.t.areas.size());
     for (auto &l : rest) {
@@ -155,9 +225,6 @@ static bool replay(const std::string &text) {
         else if (w[0] == "q" && w.size() >= 6) { c.kind = atoi(w[1].c_str()); c.addr = (uint32_t)strtoul(w[2].c_str(), 0, 10); c.n = (uint32_t)strtoul(w[3].c_str(), 0, 10); c.s = atoi(w[4].c_str()); c.k = (unsigned)atoi(w[5].c_str()); }
     }
     for (size_t i = 0; i < c.t.areas.size(); i++) c.content[i].resize(c.t.areas[i].size);
-    vp::CaseScope scope([] { return ser_case(g_cur); });
-    std::string msg, key = run_case(c, msg);
-    if (!key.empty()) printf("[replay] key=%s %s\n", key.c_str(), msg.c_str());
-    return key.empty();
+    return true;
 }
 int main(int argc, char **argv) { return vp::main_(argc, argv, {run, replay}); }
